@@ -86,8 +86,22 @@ def w_evaluators(arg):
         mc.start(occ.copy())
         Em = mc.E()
         acc.check(abs(Em - Eb) < 1e-10 * (1 + abs(Eb)), 'interaction-list-evaluator-and-sampler-energy-equal-brute-force', 'occ=%r: sampler %r brute force %r' % (list(occ), Em, Eb), sig=sig)
+    # the sampler walked between configurations (Gray code: one site flipped per step) must keep reporting the brute-force energy
+    n = sup.Nmobile * sup.size
+    free = [i for i in range(n) if i != d['vacancy']]
+    occ = np.zeros(n, dtype=int)
+    if d['vacancy'] is not None: occ[d['vacancy']] = -1
+    mc.start(occ.copy())
+    steps = min(2 ** len(free) - 1, 40 if tier == 'quick' else 255)
+    for k in range(1, steps + 1):
+        bit = (k & -k).bit_length() - 1        # Gray code: flip the lowest set bit's site
+        i = free[bit % len(free)]
+        if occ[i] == 0: occ[i] = 1; mc.update((i,), ())
+        else: occ[i] = 0; mc.update((), (i,))
+        Eb, _ = brute_energy(d, occ)
+        acc.check(abs(mc.E() - Eb) < 1e-10 * (1 + abs(Eb)), 'sampler-energy-along-a-walk-equals-brute-force', 'step %d occ=%r: %r vs %r' % (k, list(occ), mc.E(), Eb), sig=('walk', k))
     acc.sample = {'case': label, 'sites': int(sup.Nmobile * sup.size), 'clusters': int(sum(len(c) for c in d['clusterexp'])), 'vacancy': d['vacancy'],
-                  'checked': 'evalcluster, expandcluster_matrices, clusterevaluator+MonteCarloSampler.E against a brute-force sum'}
+                  'checked': 'evalcluster, expandcluster_matrices, clusterevaluator+MonteCarloSampler.E against a brute-force sum; sampler walked along a Gray code'}
     return acc.result()
 
 
